@@ -69,7 +69,7 @@ SCENARIOS = ("rstack-in-time", "error-in-time", "nothing", "rstack-late", "rstac
 
 class Reset(Harness):
     name = "c11_reset"
-    must_reach = ("completed", "timeout", "wrong-code", "error-frame", "late", "lost-clean", "lost-exc", "second-reset", "renumbered", "data-before-rstack", "send-in-flight", "write-failed")
+    must_reach = ("completed", "timeout", "wrong-code", "error-frame", "late", "lost-clean", "lost-exc", "second-reset", "renumbered", "data-before-rstack", "send-in-flight", "write-failed", "loss-with-send-in-flight")
     functions = ("Gateway.reset", "Gateway.reset_received", "Gateway.connection_lost", "Gateway._reset_cleanup",
                  "AshProtocol.send_reset", "AshProtocol.rstack_frame_received", "AshProtocol.error_frame_received")
 
@@ -93,6 +93,7 @@ class Reset(Harness):
         if sc == "loss":
             loss_exc = (None, "exc", "eof")[ctx.choice("loss_kind", 3)]
             loss_at = ctx.choice("loss_at", 2)
+        loss_send = sc == "loss" and ctx.flag("send_in_flight")
 
         async def main(loop):
             uart, ash, app, gw, p, tr = build(loop, tx, rx)
@@ -156,6 +157,10 @@ class Reset(Harness):
                 loop.call_later(0.3, p.data_received, wire(R.rst_frame()))
                 loop.call_later(0.4, p.data_received, wire(R.data_frame(rx, 0, 0, [1, 2, 3])))
             elif sc == "loss":
+                if loss_send:
+                    # a DATA frame of the host is awaiting its acknowledgement when the connection goes
+                    ctx.label("loss-with-send-in-flight")
+                    loop.create_task(outcome(p.send_data(b"\x0c\x0d")))
                 lost = {None: None, "exc": OSError("port gone"), "eof": "eof"}[loss_exc]
                 when = 0.2 if loss_at == 0 else T - 0.001
                 if lost == "eof":
